@@ -38,13 +38,27 @@ LEVEL_TEXT = (
     "prescribed conditions and 'through transform == direct'. The hand-written remainder of the model (SymPy bell, "
     "NumPy plumbing, forward substitution) and the generated text at Float are tied by correspondence, including the "
     "callbacks and initial data captured from solve_ode_ivp/solve_ode_bvp with SciPy's integrators replaced by a recorder, "
-    "and the whole functions with the integrators replaced by a stub (guards, return branch, no_derivatives)."
+    "and the whole functions with the integrators replaced by a stub (guards, return branch, no_derivatives). "
+    "ROUND 3: also carried from the source are the test of the warning block of _rearrange_to_explicit_ode (the block must "
+    "consist of the one warnings.warn call; proved: it fires at a vanishing leading coefficient, and inside the window the "
+    "value still is the explicit form with the true leading coefficient), the Bell-polynomial loop of "
+    "_transform_ode_from_derivs for orders above three (proved: a no-op up to order three, the any-order text restricted to "
+    "orders 1-3 is the text of the other theorems) and the defaults of the two signatures (proved: solve_ode_ivp returns the "
+    "derivative rows by default, solve_ode_bvp the solution only; the default tolerances are positive and not looser than "
+    "the ones the envelopes were measured for); proved for the generated explicit form and callbacks: invariance under "
+    "multiplication of the whole equation by any s != 0, amplitude homogeneity and additivity. Exploration added: equations "
+    "multiplied through by 1e-12 .. 1e12 (leading coefficient on both sides of the 1e-10 of the warning), transforms with "
+    "derivative 1e-6 .. 1e6, intervals of length 1e-6 (problems living on the scale of the interval), amplitude homogeneity "
+    "(bit-exact for powers of two when atol is scaled along; inside the measured envelope of the default tolerances "
+    "otherwise) and additivity, two/three-node meshes, the first call of a fresh interpreter with non-default options, "
+    "in-place edits of the arrays handed out by the returned callable, earlier callables re-used after later solves."
 )
 TECHNIQUE = ("Lean 4 proof over regenerated source text (transformation algebra, derivative matrices, explicit form, "
              "the bodies of the public functions and their callbacks, end-to-end under the contracts of the SciPy primitives) + differential correspondence of the private helpers and of "
              "the captured SciPy callbacks + manufactured-solution exploration of solve_ode_ivp/solve_ode_bvp")
 GEN = ["ode"]
-LEAN_MODULES = ["GridVerif.Props.C15", "GridVerif.Props.C15.Solve", "GridVerif.Props.C15.Unique", "GridVerif.Props.C15.Public"]
+LEAN_MODULES = ["GridVerif.Props.C15", "GridVerif.Props.C15.Solve", "GridVerif.Props.C15.Unique", "GridVerif.Props.C15.Public",
+                "GridVerif.Props.C15.Round3"]
 THEOREMS = [
     "GridVerif.C15.faa_di_bruno_3",
     "GridVerif.C15.derivs_of_comp",
@@ -104,6 +118,27 @@ THEOREMS = [
     "GridVerif.C15.solve_ode_bvp_rejects",
     "GridVerif.C15.solve_ode_ivp_correct₃",
     "GridVerif.C15.solve_ode_bvp_correct₃",
+    # round 3: the warning block of _rearrange_to_explicit_ode, scaling / homogeneity / additivity, the Bell loop of the
+    # higher orders, the defaults of the signatures (Props/C15/Round3.lean)
+    "GridVerif.C15.rearrangeWarns_evaluates",
+    "GridVerif.C15.rearrange_warning_fires_at_zero_leading",
+    "GridVerif.C15.rearrange_warning_silent_at_unit_leading",
+    "GridVerif.C15.rearrange_exact_inside_warning_window",
+    "GridVerif.C15.rearrange_scale_invariant",
+    "GridVerif.C15.rearrange_homogeneous",
+    "GridVerif.C15.rearrange_additive",
+    "GridVerif.C15.ivpFunc_direct_scale_invariant",
+    "GridVerif.C15.ivpFunc_direct_homogeneous",
+    "GridVerif.C15.ivpFunc_transformed_homogeneous₁",
+    "GridVerif.C15.ivpFunc_transformed_homogeneous₂",
+    "GridVerif.C15.ivpFunc_transformed_homogeneous₃",
+    "GridVerif.C15.ivpFunc_transformed_scale_invariant₃",
+    "GridVerif.C15.coeffBHigh_noop_up_to_order_3",
+    "GridVerif.C15.coeffBAny_eq_coeffB",
+    "GridVerif.C15.transformOdeFromDerivsAny_eq",
+    "GridVerif.C15.solve_ode_ivp_default_returns_derivatives",
+    "GridVerif.C15.solve_ode_bvp_default_returns_solution_only",
+    "GridVerif.C15.default_tolerances_within_measured_envelope",
 ]
 RULE = (
     "correspondence: sympy.bell (n<=6) / _transform_ode_from_derivs / _transform_ode_from_rtransform / "
@@ -114,11 +149,16 @@ RULE = (
     "transform's domain, with/without transform, no_derivatives) compared by exception class or returned value, each "
     "against the generated Lean text at Float; non-trivial = order >= 2 with a non-zero second transform derivative, or a "
     "callable coefficient, or the guard / an error branch taken. Oracle cases (manufactured solutions) are counted "
-    "with tag 'oracle:*' and are non-trivial when the transform is non-affine or a coefficient is non-constant."
+    "with tag 'oracle:*' and are non-trivial when the transform is non-affine or a coefficient is non-constant. Round 3 adds: "
+    "the generated test of the warning block against whether _rearrange_to_explicit_ode warns (leading coefficient 0, 1e-300, "
+    "within a factor 1 +- 1e-12 / 1.01 / 100 of the threshold on both sides, several points per call) and the value inside the "
+    "window; _transform_ode_from_derivs with 2 .. 7 coefficients and 3 .. 5 derivative functions; the signature defaults against "
+    "what reaches SciPy when the caller leaves the keywords out; spans ending exactly on / one ulp outside the transform's domain."
 )
 TRUSTED_BASE = [
     "Lean 4.33 kernel; axioms propext, Classical.choice, Quot.sound only (audited per theorem)",
-    "translator harness/translate/ode.py (symbolic execution of the `if total > n` blocks for total = 2,3,4; loop nest; fold; "
+    "translator harness/translate/ode.py (symbolic execution of the `if total > n` blocks for total = 2,3,4; the Bell loop of the "
+    "higher orders, the test and keywords of the warning block, the signature defaults (round 3); loop nest; fold; "
     "a small statement compiler for the bodies of solve_ode_ivp / solve_ode_bvp / _transform_solution_to_original_domain: "
     "one evaluation point / one column of every (rows, points) array; it raises on any syntax it cannot carry, e.g. an array "
     "read at another index than the loop variable); validated at Float against the implementation on every run",
@@ -139,6 +179,19 @@ ASSUMPTIONS = [
     "no_derivatives=False it raises IndexError - array arguments only, as documented)",
     "IEEE rounding not modelled; tolerances: correspondence rtol 1e-11 of the largest intermediate, "
     "exploration 5e3 x solver rtol (IVP) resp. 1e-6 (BVP, tol 1e-8) relative to 1 + max|y^(k)|",
+    "round 3, measured envelope of the unchanged tree (asserted only inside it): equation multiplied through by 1e-12 .. 1e12: "
+    "rows move by <= 1.3e-14 (asserted 5e-9 IVP / 1e-7 BVP); solve_ode_ivp with atol = 1e-6|a| passed along: V[a f]/a = V[f] bit for "
+    "bit for a = 2^-300 .. 2^300 (asserted 1e-13), <= 3e-12 for other a in 1e-12 .. 1e12 (asserted 1e-9); solve_ode_ivp with every "
+    "default (rtol 1e-8, atol 1e-6, DOP853): accuracy <= 6.1e-7 (asserted 2e-5), |V[a f]/a - V[f]| <= 6.1e-7 for 1 <= |a| <= 1e12 "
+    "(asserted 2e-5), 2.3e-4 at |a| = 1e-3 (asserted 5e-3 for 1e-3 <= |a| < 1), 4e-2 at 1e-6 and O(1) below (the absolute "
+    "tolerance takes over: not asserted); solve_ode_bvp with every default (tol 1e-4, 5000 nodes): accuracy <= 8.2e-5 (asserted "
+    "2e-3), homogeneity <= 2.8e-3 for 1e-12 <= |a| <= 1e6 where it converges (asserted 3e-2 for 1e-12 <= |a| <= 1e3; at 1e6 "
+    "SciPy's solve_bvp does not converge for 2 of 60 third-order problems, at 1e9 for none: a rejection, not a wrong answer); "
+    "additivity with defaults asserted to 4e-5 (IVP) / 4e-3 (BVP)",
+    "the Bell loop of _transform_ode_from_derivs for orders above 3 is carried and compared although it is outside the property "
+    "(solve_ode_ivp / solve_ode_bvp reject order > 3 together with a transform); no theorem depends on what it computes, so a change "
+    "there is regenerated and compared, not reported. Observation: for five or more coefficients rows 1-3 of coeff_b do not "
+    "contain the a_4, a_5, ... terms (unreachable from the public functions)",
 ]
 
 # ----------------------------------------------------------------------------------------------------------------
@@ -151,12 +204,13 @@ from grid.rtransform import *
 from grid.ode import solve_ode_ivp, solve_ode_bvp, _derivative_transformation_matrix
 
 def y_deriv(spec, k):
-    """k-th derivative of y(x) = ce*exp(al*x) + cs*sin(be*x + ph) + sum p_i x^i."""
+    """k-th derivative of y(x) = ce*exp(al*t) + cs*sin(be*t + ph) + sum p_i t^i,  t = x - x0  (x0 = 0 unless given)."""
     ce, al, cs, be, ph, p = spec['ce'], spec['al'], spec['cs'], spec['be'], spec['ph'], list(spec['p'])
+    x0 = spec.get('x0', 0.0)
     for _ in range(k):
         p = [i * p[i] for i in range(1, len(p))]
     def f(x):
-        x = np.asarray(x, dtype=float)
+        x = np.asarray(x, dtype=float) - x0
         v = ce * al**k * np.exp(al * x) + cs * be**k * np.sin(be * x + ph + k * np.pi / 2)
         for i, c in enumerate(p):
             v = v + c * x**i
@@ -535,9 +589,11 @@ def _corr_whole_functions(ctx: Ctx, ode):
             kind = "ivp" if it % 2 == 0 else "bvp"
             order = rng.choice([1, 2, 3, 3, 4]) if it >= 8 else 1 + it % 4
             # which guard (if any) this case aims at
-            aim = rng.choice(["ok", "ok", "ok", "len", "status", "domain", "notf", "notf-nod", "singular"]) if it >= 16 else "ok"
+            aim = rng.choice(["ok", "ok", "ok", "len", "status", "domain", "notf", "notf-nod", "singular",
+                              "domain-edge-in", "domain-edge-out"]) if it >= 16 else "ok"
             has_tf = aim not in ("notf", "notf-nod") and not (order == 4 and rng.random() < 0.5)
-            nod = rng.random() < 0.4
+            # round 3: a third of the calls leave `no_derivatives` out (the generated default of the signature is used)
+            nod = rng.choice([True, False, None]) if it >= 4 else [True, False, None, None][it]
             status = rng.choice([1, 2, -1]) if aim == "status" else 0
             a = [rng.choice([-1, 1]) * rng.uniform(0.4, 2.5) for _ in range(order + 1)]
             n_data = order + rng.choice([-1, 1]) if aim == "len" else order
@@ -546,6 +602,10 @@ def _corr_whole_functions(ctx: Ctx, ode):
             lo, hi = (-5.0, 5.0)
             if aim == "domain":
                 lo, hi = rng.choice([(x0 + 0.01, 5.0), (-5.0, x1 - 0.01), (0.2, 0.3)])
+            elif aim == "domain-edge-in":      # class 7: the span ends exactly ON the ends of the domain (accepted)
+                lo, hi = rng.choice([(x0, 5.0), (-5.0, x1), (x0, x1)])
+            elif aim == "domain-edge-out":     # ... and one unit in the last place outside (rejected)
+                lo, hi = rng.choice([(float(np.nextafter(x0, 1.0)), 5.0), (-5.0, float(np.nextafter(x1, -1.0)))])
             tab = [[rng.uniform(-2, 2), rng.uniform(-2, 2), rng.choice([-1, 1]) * rng.uniform(0.4, 2), rng.uniform(-2, 2), rng.uniform(-2, 2)]
                    for _ in range(3)]
             if aim == "singular":    # g'(x_span[0]) = 0: scipy.linalg.solve raises LinAlgError / returns inf -> ValueError
@@ -555,17 +615,19 @@ def _corr_whole_functions(ctx: Ctx, ode):
             stub = Res(status, interp)
             ode.solve_ivp = lambda func, t_span, y0=None, **kw: stub
             ode.solve_bvp = lambda func, bc, x, y=None, **kw: stub
-            tag = f"whole:{kind}:order{order}:{aim}:{'tf' if has_tf else 'none'}"
+            tag = f"whole:{kind}:order{order}:{aim}:{'tf' if has_tf else 'none'}" + (":default-no_derivatives" if nod is None else "")
+            nodkw = {} if nod is None else {"no_derivatives": nod}
+            nodtok = 2 if nod is None else (1 if nod else 0)
             if kind == "ivp":
                 y0 = [rng.uniform(-2, 2) for _ in range(n_data)]
                 try:
-                    ret = ode.solve_ode_ivp((x0, x1), lambda x: 0.0 * x, a, y0, tf, no_derivatives=nod)
+                    ret = ode.solve_ode_ivp((x0, x1), lambda x: 0.0 * x, a, y0, tf, **nodkw)
                     out = np.asarray(ret(np.array([pt])), dtype=float)
                     impl = ("ok", [float(v) for v in np.atleast_1d(out.reshape(-1))])
                 except (ValueError, NotImplementedError, IndexError) as e:
                     impl = (next(t for c, t in _EXC_TAG.items() if isinstance(e, c)), None)   # LinAlgError is a ValueError
                 t5 = " ".join(" ".join(f2b(v) for v in row) for row in tab)
-                lines.append(f"C15.solveivp {1 if has_tf else 0} {1 if nod else 0} {status} {f2b(x0)} {f2b(x1)} {f2b(pt)} "
+                lines.append(f"C15.solveivp {1 if has_tf else 0} {nodtok} {status} {f2b(x0)} {f2b(x1)} {f2b(pt)} "
                              f"{f2b(lo)} {f2b(hi)} {t5} {fvec(a)} {fvec(y0)} {fvec(interp)}")
                 inp = dict(kind=kind, order=order, aim=aim, has_tf=has_tf, no_derivatives=nod, status=status, coeffs=a, y0=y0,
                            x_span=[x0, x1], point=pt, domain=[lo, hi], transform_table=tab, dense_output=interp)
@@ -574,13 +636,13 @@ def _corr_whole_functions(ctx: Ctx, ode):
                 bd = [(i, j, rng.uniform(-2, 2)) for i, j in (rng.sample(pairs, n_data) if n_data <= len(pairs) else pairs)]
                 mesh = np.linspace(x0, x1, 5)
                 try:
-                    ret = ode.solve_ode_bvp(mesh, lambda x: 0.0 * x, a, bd, tf, initial_guess_y=np.zeros((order, 5)), no_derivatives=nod)
+                    ret = ode.solve_ode_bvp(mesh, lambda x: 0.0 * x, a, bd, tf, initial_guess_y=np.zeros((order, 5)), **nodkw)
                     out = np.asarray(ret(np.array([pt])), dtype=float)
                     impl = ("ok", [float(v) for v in np.atleast_1d(out.reshape(-1))])
                 except (ValueError, NotImplementedError, IndexError) as e:
                     impl = (next(t for c, t in _EXC_TAG.items() if isinstance(e, c)), None)   # LinAlgError is a ValueError
                 t5 = " ".join(f2b(v) for v in tab[2])
-                lines.append(f"C15.solvebvp {1 if has_tf else 0} {1 if nod else 0} {status} {f2b(pt)} {t5} {fvec(a)} "
+                lines.append(f"C15.solvebvp {1 if has_tf else 0} {nodtok} {status} {f2b(pt)} {t5} {fvec(a)} "
                              f"{len(bd)} " + " ".join(f"{i} {j} {f2b(c)}" for i, j, c in bd) + f" {fvec(interp)}")
                 inp = dict(kind=kind, order=order, aim=aim, has_tf=has_tf, no_derivatives=nod, status=status, coeffs=a, bd_cond=bd,
                            point=pt, transform_table=tab[2], dense_output=interp)
@@ -878,6 +940,7 @@ def corr(ctx: Ctx):
                      witness={"op": op, "case": tag, "input": inp, "impl": impl, "model": got})
     _corr_whole_functions(ctx, ode)
     _corr_container_kinds(ctx, ode)
+    _corr_round3(ctx, ode)
     # argument checks of the public functions
     for bad_call, exc, what in (
         (lambda: ode.solve_ode_ivp((0.1, 1.0), lambda x: x, [1.0, 1.0, 1.0], [1.0]), ValueError, "len(y0) != order"),
@@ -891,6 +954,141 @@ def corr(ctx: Ctx):
         except exc:
             pass
         ctx.count(["argcheck", what], nontrivial=True, tag="argument-check")
+
+
+# ----------------------------------------------------------------------------------------------------------------
+# round 3: the text carried since round 3 (warning block, Bell loop of the higher orders, signature defaults)
+# ----------------------------------------------------------------------------------------------------------------
+WARN_WINDOW = 1e-10        # the literal of `_rearrange_to_explicit_ode` the inputs are placed next to (the model's own
+#                            threshold is the regenerated one; this constant only steers the sampling)
+
+
+def _corr_round3(ctx: Ctx, ode):
+    import inspect
+    import warnings as _w
+    rng = ctx.rng
+
+    # -- (a) the warning block of _rearrange_to_explicit_ode: does it warn (generated `rearrangeWarns`), and the value
+    #        next to / far inside the window (class 7: both sides within 1.01 and 100 of the threshold; class 8: tiny) ----
+    factors = [0.0, 1e-290, 1e-40, 0.01, 0.5, 0.99, 1 - 1e-12, 1.0, 1 + 1e-12, 1.01, 2.0, 100.0, 1e10]
+    cases, lines = [], []
+    for it in range(ctx.n(60, 600)):
+        K = 1 + it % 3
+        npts = [1, 1, 2, 3][it % 4]
+        y = np.array([[rng.uniform(-2, 2) for _ in range(npts)] for _ in range(K)])
+        b = np.array([[rng.uniform(-2, 2) for _ in range(npts)] for _ in range(K + 1)])
+        for j in range(npts):
+            f = factors[(it + 5 * j) % len(factors)] if (j == 0 or rng.random() < 0.5) else 1e10
+            b[-1, j] = rng.choice([-1.0, 1.0]) * WARN_WINDOW * f
+        fx = np.array([rng.uniform(-3, 3) for _ in range(npts)])
+        with _w.catch_warnings(record=True) as rec, np.errstate(all="ignore"):
+            _w.simplefilter("always")
+            got = ode._rearrange_to_explicit_ode(y, b.copy(), fx.copy())
+        warned = any("leading" in str(r.message) for r in rec)
+        # one driver line per point; the code asks np.any over the points
+        cases.append(("warn", dict(coeff_b_last=[float(v) for v in b[-1]]), warned, npts))
+        lines += [f"C15.warns {fvec(b[:, j])}" for j in range(npts)]
+        for j in range(npts):
+            if b[-1, j] != 0.0:
+                cases.append(("value", dict(y=[float(v) for v in y[:, j]], coeff_b=[float(v) for v in b[:, j]], fx=float(fx[j])),
+                              float(got[j]), None))
+                lines.append(f"C15.explicit {fvec(y[:, j])} {fvec(b[:, j])} {f2b(fx[j])}")
+    answers = iter(driver_batch(lines))
+    for op, inp, impl, n in cases:
+        if op == "warn":
+            ans = [next(answers) for _ in range(n)]
+            model = any(a == "ok 1" for a in ans) if all(a.startswith("ok") for a in ans) else None
+            near = any(0.5 <= abs(v) / WARN_WINDOW <= 2.0 for v in inp["coeff_b_last"])
+            ctx.count(["warns", inp], nontrivial=near or len(ans) > 1, tag=f"warns:{'fires' if impl else 'silent'}" + (":next-to-threshold" if near else ""))
+            if model is None or model != impl:
+                ctx.fail("corr", "_rearrange_to_explicit_ode:warning",
+                         f"leading row {inp['coeff_b_last']}: the implementation {'warns' if impl else 'does not warn'}, the generated test says {ans}",
+                         witness={"op": "warns", "input": inp, "impl": impl, "model": ans})
+        else:
+            ans = next(answers)
+            got = _ok_float(ans)
+            b_ = inp["coeff_b"]
+            scale = (abs(inp["fx"]) + sum(abs(p * q) for p, q in zip(b_, inp["y"]))) / abs(b_[-1])
+            ctx.count(["explicit-window", inp], nontrivial=abs(b_[-1]) < WARN_WINDOW, tag="explicit:" + ("inside-window" if abs(b_[-1]) < WARN_WINDOW else "outside-window"))
+            if got is None or not (close(got, impl, rtol=1e-11, scale=scale) or (got == impl)):
+                ctx.fail("corr", "_rearrange_to_explicit_ode:window-value",
+                         f"explicit form with leading coefficient {b_[-1]} (y={inp['y']}, coeff_b={b_}, fx={inp['fx']}): implementation {impl}, model {ans if got is None else got}",
+                         witness={"y": inp["y"], "coeff_b": b_, "fx": inp["fx"], "impl": impl, "model": got})
+
+    # -- (b) _transform_ode_from_derivs for every number of coefficients (Bell loop of the orders above 3) -----------------
+    cases, lines = [], []
+    for it in range(ctx.n(36, 400)):
+        order = [4, 5, 6, 1, 2, 3, 4, 5][it % 8]
+        nder = max(3, rng.choice([3, 4, 5]))
+        a = [rng.choice([-1, 1]) * rng.uniform(0.3, 2.5) for _ in range(order + 1)]
+        ds = [rng.uniform(-1.5, 1.5) for _ in range(nder)]
+        x = np.array([rng.uniform(-1, 1) for _ in range(rng.choice([1, 2]))])
+        coeffs = [(lambda t, c=c: c + 0 * t) if (k % 2 and rng.random() < 0.5) else c for k, c in enumerate(a)]
+        try:
+            got = ode._transform_ode_from_derivs(coeffs, [(lambda t, d=d: d + 0 * t) for d in ds], x)
+            impl = ("ok", [float(v) for v in got[:, 0]])
+        except IndexError:
+            impl = ("index-error", None)
+        cases.append((order, a, ds, impl))
+        lines.append(f"C15.coeffbany {fvec(a)} {fvec(ds)}")
+    for (order, a, ds, impl), ans in zip(cases, driver_batch(lines)):
+        ctx.count(["coeffbany", a, ds], nontrivial=order >= 4, tag=f"coeffb-any:order{order}:{impl[0]}")
+        scale = max(abs(v) for v in a) * max(1.0, max(abs(d) for d in ds)) ** order * 30
+        good = ans == impl[0] if impl[0] != "ok" else _vec_close(_ok_vec(ans), impl[1], scale)
+        if not good:
+            ctx.fail("corr", f"_transform_ode_from_derivs:any-order:order{order}",
+                     f"coeff_b for {order + 1} coefficients a={a}, derivs={ds}: implementation {impl}, model {ans if not ans.startswith('ok') else _ok_vec(ans)}",
+                     witness={"order": order, "a": a, "derivs": ds, "impl": impl, "model": ans})
+
+    # -- (c) the defaults of the two signatures: what reaches SciPy / selects the returned rows when the caller leaves the
+    #        keywords out, against the generated constants ---------------------------------------------------------------
+    ans = driver_batch(["C15.defaults"])[0].split()
+    model = None
+    if len(ans) == 8 and ans[0] == "ok":
+        model = dict(ivp_no_derivatives=ans[1] == "1", rtol=None, atol=None, bvp_no_derivatives=ans[4] == "1", tol=None,
+                     max_nodes=int(ans[6]), method=ans[7])
+        t = Tokens("ok " + ans[2] + " " + ans[3] + " " + ans[5])
+        t.tok()
+        model["rtol"], model["atol"], model["tol"] = t.flt(), t.flt(), t.flt()
+    rec = {}
+    orig = (ode.solve_ivp, ode.solve_bvp)
+
+    class Res:
+        status = 0
+
+        def sol(self, r):
+            return np.array([[1.0 + 0 * v, 2.0 + 0 * v] for v in np.atleast_1d(r)]).T
+
+    def fake_ivp(func, t_span, y0=None, **kw):
+        rec["ivp"] = kw
+        return Res()
+
+    def fake_bvp(func, bc, x, y=None, **kw):
+        rec["bvp"] = kw
+        return Res()
+    try:
+        ode.solve_ivp, ode.solve_bvp = fake_ivp, fake_bvp
+        tf = FakeTF(rng)
+        ri = ode.solve_ode_ivp((0.1, 0.9), lambda x: x, [1.0, 0.5, 2.0], [1.0, 0.0], tf)
+        rb = ode.solve_ode_bvp(np.linspace(0.1, 0.9, 4), lambda x: x, [1.0, 0.5, 2.0], [(0, 0, 1.0), (1, 0, 0.0)], tf,
+                               initial_guess_y=np.zeros((2, 4)))
+        shape_i = np.asarray(ri(np.array([0.3, 0.4]))).shape
+        shape_b = np.asarray(rb(np.array([0.3, 0.4]))).shape
+    finally:
+        ode.solve_ivp, ode.solve_bvp = orig
+    sig_i = {k: v.default for k, v in inspect.signature(ode.solve_ode_ivp).parameters.items() if v.default is not inspect.Parameter.empty}
+    sig_b = {k: v.default for k, v in inspect.signature(ode.solve_ode_bvp).parameters.items() if v.default is not inspect.Parameter.empty}
+    impl = dict(ivp_no_derivatives=shape_i == (2,), rtol=rec["ivp"].get("rtol"), atol=rec["ivp"].get("atol"),
+                bvp_no_derivatives=shape_b == (2,), tol=rec["bvp"].get("tol"), max_nodes=rec["bvp"].get("max_nodes"),
+                method=rec["ivp"].get("method"))
+    sig = dict(ivp_no_derivatives=sig_i.get("no_derivatives"), rtol=sig_i.get("rtol"), atol=sig_i.get("atol"),
+               bvp_no_derivatives=sig_b.get("no_derivatives"), tol=sig_b.get("tol"), max_nodes=sig_b.get("max_nodes"),
+               method=sig_i.get("method"))
+    ctx.count(["defaults", impl], nontrivial=True, tag="defaults:signature-vs-what-reaches-scipy")
+    if model != impl or sig != impl:
+        ctx.fail("corr", "solve_ode:defaults",
+                 f"keywords left out by the caller: SciPy receives / the callable returns {impl}; the signatures say {sig}; the generated constants {model}",
+                 witness={"op": "defaults", "impl": impl, "signature": sig, "model": model})
 
 
 # ----------------------------------------------------------------------------------------------------------------
@@ -1099,6 +1297,10 @@ def oracle(ctx: Ctx, budget: str, only=None):
                              witness=prob, snippet=snippet_nod(prob, "bvp"))
                 else:
                     _audit_returned_callable(ctx, prob, s2, "solve_ode_bvp", True, acc)
+
+    # ---- round 3: scaled equations, amplitude homogeneity / additivity, fresh process, smallest meshes ------------------
+    if not enough():
+        _oracle_round3(ctx, cat, only, large)
 
     # ---- audit: container kinds and dtypes of every argument ----------------------------------------------------------
     if not enough():
@@ -1310,6 +1512,7 @@ def check_sequence(seq):
         objs['Q']['tf'] = objs['P']['tf']
     snap = {n: {k: freeze(v) for k, v in o.items()} for n, o in objs.items()}
     first = {}
+    kept = {}
     for step_no, step in enumerate(seq.get('steps', SEQ_STEPS)):
         what, n = step.split(':')
         p, o = probs[n], objs[n]
@@ -1321,22 +1524,22 @@ def check_sequence(seq):
         bkw = dict(tol=p['tol'], max_nodes=p['max_nodes'])
         tol = 5e3 * p['rtol'] if fn == 'solve_ode_ivp' else 1e-6
         if what == 'ivp':
-            out = solve_ode_ivp(o['span'], o['fx'], o['coeffs'], o['y0'], o['tf'], **ikw)(pts)
+            sol_ = solve_ode_ivp(o['span'], o['fx'], o['coeffs'], o['y0'], o['tf'], **ikw)
         elif what == 'ivp-nod':
-            out = solve_ode_ivp(o['span'], o['fx'], o['coeffs'], o['y0'], o['tf'], no_derivatives=True, **ikw)(pts)
+            sol_ = solve_ode_ivp(o['span'], o['fx'], o['coeffs'], o['y0'], o['tf'], no_derivatives=True, **ikw)
         elif what == 'ivp-direct':
-            out = solve_ode_ivp(o['span'], o['fx'], o['coeffs'], o['y0'], None, **ikw)(pts)
+            sol_ = solve_ode_ivp(o['span'], o['fx'], o['coeffs'], o['y0'], None, **ikw)
         elif what == 'bvp':
-            out = solve_ode_bvp(o['mesh'], o['fx'], o['coeffs'], o['bd'], o['tf'], initial_guess_y=o['guess'], no_derivatives=False, **bkw)(pts)
+            sol_ = solve_ode_bvp(o['mesh'], o['fx'], o['coeffs'], o['bd'], o['tf'], initial_guess_y=o['guess'], no_derivatives=False, **bkw)
         elif what == 'bvp-direct':
-            out = solve_ode_bvp(o['mesh'], o['fx'], o['coeffs'], o['bd_direct'], None, initial_guess_y=o['guess'], no_derivatives=False, **bkw)(pts)
+            sol_ = solve_ode_bvp(o['mesh'], o['fx'], o['coeffs'], o['bd_direct'], None, initial_guess_y=o['guess'], no_derivatives=False, **bkw)
         elif what == 'bvp-nod':
-            out = solve_ode_bvp(o['mesh'], o['fx'], o['coeffs'], o['bd'], o['tf'], initial_guess_y=o['guess'], **bkw)(pts)   # default True
+            sol_ = solve_ode_bvp(o['mesh'], o['fx'], o['coeffs'], o['bd'], o['tf'], initial_guess_y=o['guess'], **bkw)   # default True
         elif what == 'bvp-rand':
             state = np.random.get_state()
             np.random.seed(seq['np_seed'])
             try:
-                out = solve_ode_bvp(o['mesh'], o['fx'], o['coeffs'], o['bd'], o['tf'], no_derivatives=False, **bkw)(pts)   # initial_guess_y=None
+                sol_ = solve_ode_bvp(o['mesh'], o['fx'], o['coeffs'], o['bd'], o['tf'], no_derivatives=False, **bkw)   # initial_guess_y=None
             except Exception as e:
                 raise Violation('default-initial-guess', f'step {step_no} ({step}): solve_ode_bvp with initial_guess_y=None raised {type(e).__name__}: {e}')
             finally:
@@ -1344,7 +1547,7 @@ def check_sequence(seq):
             tol = 1e-5
         else:
             raise ValueError(step)
-        out = np.asarray(out)
+        out = np.asarray(sol_(pts))
         nod = what.endswith('-nod') and o['tf'] is not None
         if out.shape != ((7,) if nod else (order, 7)):
             raise Violation('shape', f'step {step_no} ({step}): {fn} returned shape {out.shape}')
@@ -1363,6 +1566,14 @@ def check_sequence(seq):
                 raise Violation('state-between-calls', f'step {step_no} ({step}): the answer differs from that of the same call at step '
                                 f'{first[step][0]} by {np.max(np.abs(first[step][1] - out))}')
             first.setdefault(step, (step_no, out))
+            kept.setdefault(step, (step_no, sol_, pts.copy(), out.copy()))
+    # round 3 (class 10): every callable handed out earlier, used after all the later solves (same transform objects, the
+    # other option values in between), still gives its first answer
+    for step, (step_no, sol_, pts_, out_) in kept.items():
+        now = np.asarray(sol_(pts_))
+        if now.shape != out_.shape or not np.array_equal(now, out_):
+            raise Violation('state-between-calls', f'the callable returned at step {step_no} ({step}), evaluated again after the later solves, '
+                            f'differs from its first answer by {np.max(np.abs(now - out_)) if now.shape == out_.shape else now.shape}')
     return 'ok'
 
 # ---- the returned callable on several points at once -------------------------------------------------------------------
@@ -1388,6 +1599,22 @@ def check_callable(prob, sol, nod, fr, tol):
     err = float(np.max(np.abs(F - ex) / scale[:, None]))
     if not err <= tol:
         raise Violation('unsorted-points', f'no_derivatives={nod}: on the points {pts.tolist()} the result is off the exact solution by {err:.3g} > {tol}')
+    # round 3 (class 9): the array handed out belongs to the caller - after an in-place edit of it the same callable
+    # must give the first answer again (a fresh array), also for the one-point calls below
+    again = np.asarray(sol(pts))
+    if again is full or np.shares_memory(again, full):
+        raise Violation('handed-out-array', f'no_derivatives={nod}: two evaluations of the returned callable hand out the same memory')
+    keep_full = full.copy()
+    full *= 0.0
+    full += 7.0
+    third = np.asarray(sol(pts))
+    if third.shape != keep_full.shape or not np.array_equal(third, keep_full):
+        raise Violation('handed-out-array', f'no_derivatives={nod}: after the caller overwrote the array it was handed (in place), the callable '
+                        f'returns {third.tolist()} instead of {keep_full.tolist()}')
+    if not np.array_equal(pts, keep):
+        raise Violation('caller-data', 'the returned callable modified the array of points it was given')
+    full = keep_full
+    F = full[None, :] if only_y else full
     for i in range(len(pts)):
         one = np.asarray(sol(np.array([pts[i]])))
         if one.shape != ((1,) if only_y else (order, 1)):
@@ -1400,7 +1627,133 @@ def check_callable(prob, sol, nod, fr, tol):
 '''
 exec(AUDIT_HELPERS, _ns)
 Violation = _ns["Violation"]
-_AUDIT_HEADER = HELPERS + AUDIT_HELPERS + "\nimport signal; signal.alarm(300)\n"
+
+# ---- round 3, part A: the equation multiplied through by a constant (classes 7, 8), amplitude homogeneity and additivity
+#      in the right-hand side and the data (class 13) ------------------------------------------------------------------------
+R3_HELPERS = r'''
+import copy
+
+def scaled_problem(prob, s):
+    """every coefficient a_k multiplied by s (the manufactured right-hand side sum_k a_k y^(k) scales with them)"""
+    p = copy.deepcopy(prob)
+    for c in p['coeffs']:
+        for f in (('c',) if c['kind'] == 'const' else ('c0', 'c1') if c['kind'] == 'lin' else ('s',)):
+            c[f] = c[f] * s
+    return p
+
+def _rows_exact(prob, pts):
+    order = len(prob['coeffs']) - 1
+    ex = np.array([y_deriv(prob['y'], k)(pts) for k in range(order)])
+    return ex, 1 + np.max(np.abs(ex), axis=1)
+
+def _rel(out, ref, sc):
+    return float(np.max(np.abs(out - ref) / sc[:, None]))
+
+def check_scaled_equation(case):
+    """The same problem with the whole equation multiplied through by s (leading coefficient s * a_K as small as 1e-12 *
+    a_K, next to the 1e-10 of the warning, as large as 1e12 * a_K): the solution must not move."""
+    prob, kind = case['prob'], case['kind']
+    pts = np.linspace(prob['span'][0], prob['span'][1], 9)
+    solve = (lambda p: np.atleast_2d(run_ivp(p)(pts))) if kind == 'ivp' else (lambda p: np.atleast_2d(run_bvp(p)[0](pts)))
+    ex, sc = _rows_exact(prob, pts)
+    base = solve(prob)
+    e0 = _rel(base, ex, sc)
+    if not e0 <= case['acc']:
+        raise Violation('accuracy', f'unscaled problem: off the exact solution by {e0:.3g} > {case["acc"]}')
+    for s in case['scales']:
+        try:
+            out = solve(scaled_problem(prob, s))
+        except Exception as e:
+            raise Violation('scaled-equation', f'equation multiplied through by {s!r}: raised {type(e).__name__}: {e}')
+        d = _rel(out, base, sc)
+        if not d <= case['tol']:
+            raise Violation('scaled-equation', f'equation multiplied through by {s!r} (leading coefficient about {s * case["lead"]:.3g}): the returned '
+                            f'rows move by {d:.3g} relative to 1 + max|y^(k)| (allowed {case["tol"]}); against the exact solution they are off by {_rel(out, ex, sc):.3g}')
+    return 'ok'
+
+def amp_ivp(prob, a, kw, y=None):
+    """the problem with right-hand side a*f and initial data a*y0 (f, y0 manufactured from prob['y'] or from the spec y)"""
+    order = len(prob['coeffs']) - 1
+    q = dict(prob, y=y) if y is not None else prob
+    xa = prob['span'][0]
+    y0 = [a * float(y_deriv(q['y'], k)(xa)) for k in range(order)]
+    f = rhs(q)
+    return solve_ode_ivp(span_of(prob), lambda x: a * f(x), [coeff_fn(c) for c in prob['coeffs']], y0, make_tf(prob), **kw)
+
+def amp_bvp(prob, a, kw, y=None):
+    order = len(prob['coeffs']) - 1
+    q = dict(prob, y=y) if y is not None else prob
+    tf = make_tf(prob)
+    mesh = mesh_of(prob) if tf is not None else np.linspace(prob['span'][0], prob['span'][1], prob['nmesh'])
+    if tf is None:
+        ends = [float(mesh[0]), float(mesh[-1])]
+        bd = []
+        for (i, j) in prob['bc']:
+            i2 = (1 - i) if prob.get('reverse_mesh') else i
+            bd.append((i2, j, a * float(y_deriv(q['y'], j)(ends[i2]))))
+    else:
+        bd = [(i, j, a * c) for i, j, c in bvp_conditions(q, tf)]
+    f = rhs(q)
+    return solve_ode_bvp(mesh, lambda x: a * f(x), [coeff_fn(c) for c in prob['coeffs']], bd, tf,
+                         initial_guess_y=np.zeros((order, mesh.size)), no_derivatives=False, **kw)
+
+def check_homogeneity(case):
+    """V[a f, a data] = a V[f, data] for the amplitudes (a, bound) of the case, and V[f1 + f2, d1 + d2] = V[f1, d1] + V[f2, d2];
+    mode 'scaled-atol' (solve_ode_ivp only): atol = 1e-6 |a| is passed along, then every step of the integrator scales
+    with a (bit for bit when a is a power of two); mode 'default': every tolerance keyword left at its default."""
+    prob, kind, mode = case['prob'], case['kind'], case['mode']
+    amp = amp_ivp if kind == 'ivp' else amp_bvp
+    pts = np.linspace(prob['span'][0], prob['span'][1], 9)
+    ex, sc = _rows_exact(prob, pts)
+    try:
+        base = np.atleast_2d(amp(prob, 1.0, {})(pts))
+    except Exception as e:
+        raise Violation('default-tolerances', f'all tolerance keywords left out: raised {type(e).__name__}: {e}')
+    e0 = _rel(base, ex, sc)
+    if not e0 <= case['acc']:
+        raise Violation('default-tolerances', f'all tolerance keywords left out: off the exact solution by {e0:.3g} > {case["acc"]}')
+    for a, bound in case['amplitudes']:
+        kw = {'atol': 1e-6 * abs(a)} if mode == 'scaled-atol' else {}
+        try:
+            out = np.atleast_2d(amp(prob, a, kw)(pts))
+        except Exception as e:
+            raise Violation('homogeneity', f'right-hand side and data multiplied by {a!r} ({mode}): raised {type(e).__name__}: {e}')
+        d = _rel(out / a, base, sc)
+        if not d <= bound:
+            raise Violation('homogeneity', f'right-hand side and data multiplied by {a!r} ({mode}): V[a f]/a differs from V[f] by {d:.3g} relative to '
+                            f'1 + max|y^(k)| (allowed {bound}); V[a f]/a is off the exact solution by {_rel(out / a, ex, sc):.3g}')
+    if case.get('second'):
+        y2 = case['second']
+        ex2, sc2 = _rows_exact(dict(prob, y=y2), pts)
+        o2 = np.atleast_2d(amp(prob, 1.0, {}, y=y2)(pts))
+        # the sum of the two manufactured problems: right-hand sides and data added
+        order = len(prob['coeffs']) - 1
+        f1, f2 = rhs(prob), rhs(dict(prob, y=y2))
+        if kind == 'ivp':
+            xa = prob['span'][0]
+            y0 = [float(y_deriv(prob['y'], k)(xa)) + float(y_deriv(y2, k)(xa)) for k in range(order)]
+            both = solve_ode_ivp(span_of(prob), lambda x: f1(x) + f2(x), [coeff_fn(c) for c in prob['coeffs']], y0, make_tf(prob))
+        else:
+            tf = make_tf(prob)
+            mesh = mesh_of(prob) if tf is not None else np.linspace(prob['span'][0], prob['span'][1], prob['nmesh'])
+            if tf is None:
+                ends = [float(mesh[0]), float(mesh[-1])]
+                bd = []
+                for (i, j) in prob['bc']:
+                    i2 = (1 - i) if prob.get('reverse_mesh') else i
+                    bd.append((i2, j, float(y_deriv(prob['y'], j)(ends[i2])) + float(y_deriv(y2, j)(ends[i2]))))
+            else:
+                bd = [(i, j, c + c2) for (i, j, c), (_, _, c2) in zip(bvp_conditions(prob, tf), bvp_conditions(dict(prob, y=y2), tf))]
+            both = solve_ode_bvp(mesh, lambda x: f1(x) + f2(x), [coeff_fn(c) for c in prob['coeffs']], bd, tf,
+                                 initial_guess_y=np.zeros((order, mesh.size)), no_derivatives=False)
+        ob = np.atleast_2d(both(pts))
+        d = _rel(ob, base + o2, sc + sc2)
+        if not d <= case['add_bound']:
+            raise Violation('additivity', f'V[f1 + f2, d1 + d2] differs from V[f1, d1] + V[f2, d2] by {d:.3g} (allowed {case["add_bound"]})')
+    return 'ok'
+'''
+exec(R3_HELPERS, _ns)
+_AUDIT_HEADER = HELPERS + AUDIT_HELPERS + R3_HELPERS + "\nimport signal; signal.alarm(300)\n"
 
 
 def _guarded(setup, call):
@@ -1788,6 +2141,64 @@ def extreme_ivp_problems(rng, cat, more):
             prob["span"] = prob["span"][::-1]          # (backwards over a long interval the decaying modes grow: not done)
         prob["np_span"] = n % 2 == 1
         out.append((label, prob))
+    out += round3_extreme_ivp_problems(rng, cat, more)
+    return out
+
+
+# ---- round 3 (class 8): transforms whose derivative is 1e-6 .. 1e6, intervals of length 1e-6 ---------------------------------
+R3_EXTREME_TFS = {
+    # label -> (catalogue entry that carries the flags, constructor text, span of the ORIGINAL variable)
+    "transform-derivative-1e-6:linear": ("LinearFiniteRTransform", "LinearFiniteRTransform(0.5, 0.500002)", (-0.5, 0.4)),
+    "transform-derivative-1e6:linear": ("LinearFiniteRTransform", "LinearFiniteRTransform(0.5, 2000000.5)", (-0.5, 0.4)),
+    "transform-derivative-1e-6:becke": ("BeckeRTransform", "BeckeRTransform(0.1, 1e-06)", (-0.5, 0.4)),
+    "transform-derivative-1e6:becke": ("BeckeRTransform", "BeckeRTransform(0.1, 1000000.0)", (-0.5, 0.4)),
+    "transform-derivative-1e-3:knowles2": ("KnowlesRTransform:k=2", "KnowlesRTransform(0.1, 0.001, 2)", (-0.5, 0.4)),
+    "transform-derivative-1e3:knowles2": ("KnowlesRTransform:k=2", "KnowlesRTransform(0.1, 1000.0, 2)", (-0.5, 0.4)),
+    "transform-derivative-1e6:knowles2": ("KnowlesRTransform:k=2", "KnowlesRTransform(0.1, 1000000.0, 2)", (-0.5, 0.4)),
+    "transform-derivative-1e-6:inverse-becke-r-of-order-1e6": ("Inverse(BeckeRTransform)", "InverseRTransform(BeckeRTransform(0.1, 1000000.0))", (500000.1, 2000000.1)),
+    "transform-derivative-1e-6:inverse-handymod3-r-of-order-1e6": ("Inverse(HandyModRTransform):m=3", "InverseRTransform(HandyModRTransform(0.1, 100000000.0, 3))", (500000.1, 2000000.1)),
+    "transform-derivative-1e6:inverse-becke-interval-1e-6": ("Inverse(BeckeRTransform)", "InverseRTransform(BeckeRTransform(0.1, 1e-06))", (0.1000005, 0.100002)),
+    "transform-derivative-1e6:inverse-linear-interval-1e-6": ("Inverse(LinearFiniteRTransform)", "InverseRTransform(LinearFiniteRTransform(0.5, 0.500002))", (0.5000003, 0.5000018)),
+    "interval-1e-6:no-transform": ("none", "", (0.7, 0.700001)),
+    "interval-1e-6:becke": ("BeckeRTransform", "BeckeRTransform(0.1, 1.5)", (0.25, 0.250001)),
+    "interval-1e-6:inverse-becke": ("Inverse(BeckeRTransform)", "InverseRTransform(BeckeRTransform(0.1, 1.5))", (0.7, 0.700001)),
+    "interval-1e-6:inverse-becke-backward": ("Inverse(BeckeRTransform)", "InverseRTransform(BeckeRTransform(0.1, 1.5))", (0.700001, 0.7)),
+    "interval-1e-6:knowles3": ("KnowlesRTransform:k=3", "KnowlesRTransform(0.1, 1.5, 3)", (-0.3, -0.299999)),
+    "interval-1e-6:inverse-handymod3": ("Inverse(HandyModRTransform):m=3", "InverseRTransform(HandyModRTransform(0.1, 10.0, 3))", (1.2, 1.200001)),
+    "interval-1e-6:exp": ("ExpRTransform", "ExpRTransform(0.1, 5.0, b=4.0)", (1.0, 1.000001)),
+}
+
+
+def local_problem(rng, order, name, text, span):
+    """A manufactured problem living on the scale of its interval [a, b] (length L): y(x) = Y((x - a) / L) with Y of the
+    usual kind, so y^(k) is of order L^-k, and constant coefficients a_k = c_k L^k (all terms of the equation of order one;
+    the leading coefficient is c_K L^K: 1e-18 for a third-order equation on an interval of length 1e-6)."""
+    a, b = span
+    L = abs(b - a)
+    y = gen_solution(rng)
+    y = {"ce": y["ce"], "al": y["al"] / L, "cs": y["cs"], "be": y["be"] / L, "ph": y["ph"],
+         "p": [y["p"][i] / L ** i for i in range(4)], "x0": a}
+    return {"tf": text, "tfname": name, "span": [a, b], "np_span": False, "y": y,
+            "coeffs": [{"kind": "const", "c": rng.choice([-1, 1]) * rng.uniform(0.5, 2) * L ** k} for k in range(order + 1)]}
+
+
+def round3_extreme_ivp_problems(rng, cat, more):
+    out = []
+    labels = list(R3_EXTREME_TFS)
+    k = rng.randrange(len(labels))
+    pick = labels if more else [labels[(k + 3 * i) % len(labels)] for i in range(6)]
+    for n, label in enumerate(pick):
+        name, text, span = R3_EXTREME_TFS[label]
+        L = abs(span[1] - span[0])
+        for order in ((1, 2, 3) if more else ([3, 2, 3, 1][(k + n) % 4],)):
+            if L < 0.1 or L > 5:
+                prob = local_problem(rng, order, name, text, span)
+            else:
+                prob = gen_problem(rng, order, name, cat)
+                prob.update(tf=text, span=list(span))
+            # (without a transform SciPy's DOP853 itself is off by 5e3 x rtol on an interval of 1e-6 at x = 0.7)
+            prob["method"] = "RK45" if label == "interval-1e-6:no-transform" else ["DOP853", "RK45", "LSODA"][(k + n + order) % 3]
+            out.append((label, prob))
     return out
 
 
@@ -1807,6 +2218,162 @@ def extreme_bvp_problems(rng, cat, more):
                 out.append((label, prob))
                 break
     return out
+
+
+# ---- round 3, part A: classes 7, 8, 11, 12, 13 ---------------------------------------------------------------------------------
+R3_TF_NAMES = ["none", "BeckeRTransform", "Inverse(KnowlesRTransform):k=3", "HandyModRTransform:m=2", "Inverse(HandyRTransform):m=3",
+               "Inverse(BeckeRTransform)", "ExpRTransform", "KnowlesRTransform:k=2", "Inverse(HandyModRTransform):m=3"]
+# Envelope measured on the unchanged tree (7 transforms x 3 orders, see DESIGN / the report of round 3):
+#  * equation multiplied through by 1e-12 .. 1e12 (either sign): rows move by <= 1.3e-14 (IVP, rtol 1e-10)
+#  * solve_ode_ivp, atol = 1e-6 |a| passed along: V[a f]/a = V[f] bit for bit for a = 2^-300 .. 2^300, <= 3e-12 for other a
+#  * solve_ode_ivp, all defaults (rtol 1e-8, atol 1e-6, DOP853): |V[a f]/a - V[f]| <= 6.1e-7 for 1 <= |a| <= 1e12, 2.3e-4 at
+#    1e-3, 7.3e-4 at 1e-4, 4e-2 at 1e-6, O(1) below (the absolute tolerance takes over: nothing is asserted below 1e-3)
+#  * solve_ode_bvp, all defaults (tol 1e-4, 5000 nodes): <= 2.8e-3 for 1e-12 <= a <= 1e6 where it converges; at a = 1e6 SciPy's
+#    solve_bvp reports a singular Jacobian for 2 of 60 problems (third order), at 1e7 for 4 of 21, from 1e9 on for all of them
+#    ("didn't converge": a rejection) - asserted for 1e-12 <= |a| <= 1e3 only
+HOM_SCALED_ATOL = [(2.0 ** -40, 1e-13), (2.0 ** 40, 1e-13), (2.0 ** -300, 1e-13), (2.0 ** 300, 1e-13), (3e-7, 1e-9), (-7e5, 1e-9),
+                   (1e12, 1e-9), (1e-12, 1e-9)]
+HOM_DEFAULT_IVP = [(1e3, 2e-5), (1e12, 2e-5), (-1e6, 2e-5), (7.0, 2e-5), (1e-2, 5e-3), (1e-3, 5e-3), (-1e9, 2e-5)]
+HOM_DEFAULT_BVP = [(1e-12, 3e-2), (1e-6, 3e-2), (1e3, 3e-2), (30.0, 3e-2), (-1e-3, 3e-2), (-1e2, 3e-2)]
+ACC_DEFAULT_IVP, ACC_DEFAULT_BVP = 2e-5, 2e-3      # observed 6.1e-7 / 8.2e-5
+SCALE_TOL_IVP, SCALE_TOL_BVP = 5e-9, 1e-7
+
+
+def _lead_magnitude(prob):
+    x = np.array([0.5 * (prob["span"][0] + prob["span"][1])])
+    return float(abs(coeff_val(prob["coeffs"][-1], x)[0]))
+
+
+def _oracle_round3(ctx, cat, only, large):
+    rng = ctx.rng
+    orders = sorted((only or {}).get("orders", {1, 2, 3}))
+    kinds = (only or {}).get("kinds", {"ivp", "bvp"})
+    more = large or ctx.thorough
+    k = rng.randrange(1000)
+    bvp_names = [n for n in R3_TF_NAMES if not cat[n][2].get("no_bvp")]
+
+    def run(fn, case, keys, describe, tag, nontrivial=True):
+        return _audit_call(ctx, fn, (case,), lambda t: keys.get(t, keys["*"]), describe, case,
+                           _guarded(f"case = {case!r}\n", f"{fn}(case)"), [fn, case], tag, nontrivial=nontrivial)
+
+    # ---- classes 7 / 8: the equation multiplied through by s -------------------------------------------------------------
+    for kind, count in (("ivp", 12 if more else 4), ("bvp", 6 if more else 2)):
+        if kind not in kinds:
+            continue
+        for i in range(count):
+            k += 1
+            name = (R3_TF_NAMES if kind == "ivp" else bvp_names)[k % (len(R3_TF_NAMES) if kind == "ivp" else len(bvp_names))]
+            order = orders[::-1][k % len(orders)]
+            if kind == "ivp":
+                prob = gen_problem(rng, order, name, cat)
+                prob.update(method="DOP853", rtol=1e-10, atol=1e-12)
+            else:
+                prob = _gen_bvp_problem(rng, order, name, cat, BC_KINDS[k % len(BC_KINDS)])
+            lead = _lead_magnitude(prob)
+            w = WARN_WINDOW / lead
+            pool = [1e-12, 0.99 * w, 1.01 * w, 1e12, -1e-12, 0.01 * w, 100 * w, -0.99 * w, 1e-11, 1e-6, 1e6, -1e12, 1e-8]
+            scales = pool if more else [pool[(k + 4 * j) % len(pool)] for j in range(3)]
+            case = {"prob": prob, "kind": kind, "scales": scales, "lead": lead,
+                    "tol": SCALE_TOL_IVP if kind == "ivp" else SCALE_TOL_BVP, "acc": IVP_FACTOR * 1e-10 if kind == "ivp" else BVP_ACCEPT * cat[name][2].get("bvp_tol_factor", 1.0)}
+            run("check_scaled_equation", case,
+                {"scaled-equation": f"ode.solve_ode_{kind}:scaled-equation", "accuracy": f"ode.solve_ode_{kind}:order{order}:{name}",
+                 "*": f"ode.solve_ode_{kind}:scaled-equation:raised"},
+                f"solve_ode_{kind}, order {order}, {prob['tf'] or 'no transform'}: the whole equation multiplied through by {scales}",
+                f"oracle:{kind}:scaled-equation:order{order}", nontrivial=True)
+
+    # ---- class 13: amplitude homogeneity and additivity ------------------------------------------------------------------
+    plans = []
+    if "ivp" in kinds:
+        plans += [("ivp", "scaled-atol", HOM_SCALED_ATOL, None, 0.0)] * (6 if more else 3)
+        plans += [("ivp", "default", HOM_DEFAULT_IVP, ACC_DEFAULT_IVP, 4e-5)] * (6 if more else 3)
+    if "bvp" in kinds:
+        plans += [("bvp", "default", HOM_DEFAULT_BVP, ACC_DEFAULT_BVP, 4e-3)] * (5 if more else 2)
+    for i, (kind, mode, table, acc, addb) in enumerate(plans):
+        k += 1
+        name = (R3_TF_NAMES if kind == "ivp" else bvp_names)[k % (len(R3_TF_NAMES) if kind == "ivp" else len(bvp_names))]
+        order = orders[k % len(orders)]
+        prob = gen_problem(rng, order, name, cat) if kind == "ivp" else _gen_bvp_problem(rng, order, name, cat, "mixed")
+        amps = list(table) if more else [table[(k + 3 * j) % len(table)] for j in range(3 if mode == "scaled-atol" else 2)]
+        case = {"prob": prob, "kind": kind, "mode": mode, "amplitudes": [list(t) for t in amps],
+                "acc": acc if acc is not None else ACC_DEFAULT_IVP}
+        if mode == "default" and i % 2 == 0:
+            case["second"] = gen_solution(rng)
+            case["add_bound"] = addb
+        run("check_homogeneity", case,
+            {"homogeneity": f"ode.solve_ode_{kind}:amplitude-homogeneity:{mode}", "additivity": f"ode.solve_ode_{kind}:additivity",
+             "default-tolerances": f"ode.solve_ode_{kind}:default-tolerances", "*": f"ode.solve_ode_{kind}:amplitude-homogeneity:raised"},
+            f"solve_ode_{kind}, order {order}, {prob['tf'] or 'no transform'}: right-hand side and data multiplied by {[t[0] for t in amps]} ({mode})",
+            f"oracle:{kind}:homogeneity:{mode}:order{order}", nontrivial=True)
+
+    # ---- class 12: the smallest meshes (two and three nodes) for solve_ode_bvp ------------------------------------------
+    if "bvp" in kinds:
+        for nmesh in (2, 3):
+            k += 1
+            name = bvp_names[k % len(bvp_names)]
+            order = orders[k % len(orders)]
+            prob = _gen_bvp_problem(rng, order, name, cat, "mixed")
+            prob["nmesh"] = nmesh
+            acc = BVP_ACCEPT * 5.0 * cat[name][2].get("bvp_tol_factor", 1.0)
+            ctx.count(["bvp-small-mesh", prob], nontrivial=nontrivial_problem(prob, cat), tag=f"oracle:bvp:mesh-of-{nmesh}-nodes")
+            key = f"ode.solve_ode_bvp:mesh-of-{nmesh}-nodes"
+            try:
+                with time_limit(SOLVE_TIME_LIMIT):
+                    sol, bd = run_bvp(prob)
+                    errs, out = errors(prob, sol, np.linspace(prob["span"][0], prob["span"][1], 9))
+                if max(errs) > acc:
+                    ctx.fail("oracle", key, f"solve_ode_bvp on a mesh of {nmesh} nodes, order {order}, {prob['tf'] or 'no transform'}: errors {errs} > {acc}",
+                             witness={"problem": prob, "errors": errs}, snippet=snippet_bvp(prob, acc))
+            except Exception as e:
+                ctx.fail("oracle", key, f"solve_ode_bvp on a mesh of {nmesh} nodes raised {type(e).__name__}: {e}", witness=prob, snippet=snippet_bvp(prob, acc))
+
+    # ---- class 11: the first call of a fresh interpreter uses non-default options ------------------------------------------
+    if only is None:
+        _audit_fresh_process(ctx, cat, 2 * k)          # a boundary-value variant
+        _audit_fresh_process(ctx, cat, 2 * k + 1)      # an initial-value variant
+
+
+def _audit_fresh_process(ctx, cat, k):
+    """A new interpreter whose very first use of the library is a solve with non-default options (no_derivatives, method /
+    tolerances, a b-scaled transform that was never used before): the answer must be the exact solution."""
+    import subprocess
+    import sys
+    rng = ctx.rng
+    grid_src = str(importlib.import_module("pathlib").Path(importlib.import_module("grid").__file__).resolve().parent.parent)
+    variants = [
+        ("bvp:no_derivatives=False", "Inverse(HandyModRTransform):m=3"), ("ivp:no_derivatives=True:Radau", "ExpRTransform"),
+        ("bvp:no_derivatives=False", "PowerRTransform"), ("ivp:no_derivatives=True:LSODA", "Inverse(KnowlesRTransform):k=3"),
+    ]
+    what, name = variants[k % len(variants)]
+    order = 2 + k % 2
+    if what.startswith("bvp"):
+        prob = _gen_bvp_problem(rng, order, name, cat, "mixed")
+        body = ("sol, bd = run_bvp(prob, no_derivatives=False)\npts = np.linspace(prob['span'][0], prob['span'][1], 9)\n"
+                "errs, out = errors(prob, sol, pts)\n"
+                f"assert max(errs) <= {BVP_ACCEPT!r}, f'first call in a fresh interpreter, solve_ode_bvp(no_derivatives=False): errors {{errs}}'\n")
+    else:
+        method = what.split(":")[-1]
+        prob = gen_problem(rng, order, name, cat)
+        prob.update(method=method, rtol=1e-9, atol=1e-11)
+        body = ("order = len(prob['coeffs']) - 1\npts = np.linspace(prob['span'][0], prob['span'][1], 9)\n"
+                "s2 = solve_ode_ivp(span_of(prob), rhs(prob), [coeff_fn(c) for c in prob['coeffs']], "
+                "[float(y_deriv(prob['y'], k)(prob['span'][0])) for k in range(order)], make_tf(prob), "
+                "method=prob['method'], rtol=prob['rtol'], atol=prob['atol'], no_derivatives=True)\n"
+                "o = np.asarray(s2(pts))\nex = y_deriv(prob['y'], 0)(pts)\n"
+                "assert o.shape == (9,), f'first call in a fresh interpreter, no_derivatives=True: shape {o.shape}'\n"
+                "err = float(np.max(np.abs(o - ex)) / (1 + np.max(np.abs(ex))))\n"
+                f"assert err <= {IVP_FACTOR * 1e-9!r}, f'first call in a fresh interpreter, solve_ode_ivp(no_derivatives=True, method={{prob[\"method\"]!r}}): error {{err}}'\n")
+    snippet = HELPERS + f"\nimport signal; signal.alarm(300)\nprob = {prob!r}\n" + body
+    ctx.count(["fresh-process", what, prob], nontrivial=True, tag=f"audit:fresh-process:{what.split(':')[0]}")
+    env = dict(importlib.import_module("os").environ, PYTHONPATH=grid_src, OMP_NUM_THREADS="1")
+    try:
+        p = subprocess.run([sys.executable, "-c", snippet], capture_output=True, text=True, cwd="/", env=env, timeout=120)
+    except subprocess.TimeoutExpired:
+        ctx.fail("oracle", "ode.solve_ode:first-call-in-fresh-process", f"{what} through {prob['tf']}: no result within 120 s", witness=prob, snippet=snippet)
+        return
+    if p.returncode != 0:
+        last = p.stderr.strip().splitlines()[-1] if p.stderr.strip() else f"exit code {p.returncode}"
+        ctx.fail("oracle", "ode.solve_ode:first-call-in-fresh-process",
+                 f"a fresh interpreter whose first library call is {what} through {prob['tf']}: {last}", witness=prob, snippet=snippet)
 
 
 # ---- 7. a correspondence disagreement -> a concrete failing input of the property ------------------------------------------
